@@ -661,6 +661,32 @@ Proof.
   - unfold q. field. repeat split; lra.
 Qed.
 
+(* dimension 3: the nine partial derivatives and the 3 x 3 determinant *)
+Lemma softmax_jac_det_3 x1 x2 x3 :
+  0 < x1 -> 0 < x2 -> 0 < x3 -> x1 + x2 + x3 < 1 ->
+  exists d11 d12 d13 d21 d22 d23 d31 d32 d33 : R,
+    is_derive (fun t => nth 0 (softmax_fwd_row [t; x2; x3]) 0) x1 d11 /\
+    is_derive (fun t => nth 0 (softmax_fwd_row [x1; t; x3]) 0) x2 d12 /\
+    is_derive (fun t => nth 0 (softmax_fwd_row [x1; x2; t]) 0) x3 d13 /\
+    is_derive (fun t => nth 1 (softmax_fwd_row [t; x2; x3]) 0) x1 d21 /\
+    is_derive (fun t => nth 1 (softmax_fwd_row [x1; t; x3]) 0) x2 d22 /\
+    is_derive (fun t => nth 1 (softmax_fwd_row [x1; x2; t]) 0) x3 d23 /\
+    is_derive (fun t => nth 2 (softmax_fwd_row [t; x2; x3]) 0) x1 d31 /\
+    is_derive (fun t => nth 2 (softmax_fwd_row [x1; t; x3]) 0) x2 d32 /\
+    is_derive (fun t => nth 2 (softmax_fwd_row [x1; x2; t]) 0) x3 d33 /\
+    d11 * (d22 * d33 - d23 * d32) - d12 * (d21 * d33 - d23 * d31)
+      + d13 * (d21 * d32 - d22 * d31) = softmax_jac_row [x1; x2; x3].
+Proof.
+  intros H1 H2 H3 Hs. set (q := 1 / (1 - (x1 + (x2 + x3)))).
+  exists (1 / x1 + q), q, q, q, (1 / x2 + q), q, q, q, (1 / x3 + q).
+  assert (Hq : 0 < 1 - (x1 + (x2 + x3))) by lra.
+  unfold softmax_fwd_row, softmax_jac_row, rsum, rprod. simpl.
+  split; [|split; [|split; [|split; [|split; [|split; [|split; [|split; [|split]]]]]]]];
+    try (auto_derive; [repeat split; try lra; apply Rdiv_lt_0_compat; lra
+                      | unfold q; field; repeat split; lra]).
+  unfold q. field. repeat split; lra.
+Qed.
+
 (* ------------------------------------------------------------------ *)
 (* non-vacuity of the hypotheses (instances at branch values)           *)
 Lemma ex2_logit :
@@ -723,7 +749,8 @@ Qed.
 
 Lemma ex2_softmax :
   (exists js, softmax_jac [[1/4; 1/4]; [1/2]] = Some js) /\
-  (0 < 1 / 4 < 1) /\ (0 < 1 / 4 /\ 0 < 1 / 4 /\ 1 / 4 + 1 / 4 < 1).
+  (0 < 1 / 4 < 1) /\ (0 < 1 / 4 /\ 0 < 1 / 4 /\ 1 / 4 + 1 / 4 < 1) /\
+  (0 < 1 / 4 /\ 1 / 4 + 1 / 4 + 1 / 4 < 1).
 Proof.
   split; [|lra]. unfold softmax_jac. rewrite (softmax_dom_ok _ ex_softmax). eexists; reflexivity.
 Qed.
